@@ -18,11 +18,16 @@
 #include "consgen.h"
 #include "refdyn.h"
 #include <cstdio>
+#include <chrono>
+#include <dlfcn.h>
 using namespace SimTK;
 
 namespace {
+// OpenBLAS spins (sched_yield) in its worker threads even for the 10x10 systems IPOPT solves; on a shared machine that
+// makes one IPOPT iteration take 10-100 ms. One BLAS thread (as C39/C44 do); results do not depend on it.
+struct BlasOneThread { BlasOneThread() { typedef void (*F)(int); F f = (F)dlsym(RTLD_DEFAULT, "openblas_set_num_threads"); if (f) f(1); } } blasOneThread;
 std::string S(double a) { return pbt::str(a); }
-const int XW = 56;                       // extra words per unit (after the consgen words)
+const int XW = 60;                       // extra words per unit (after the consgen words)
 const int KK = consgen::K + XW;
 const double Pi_ = 3.141592653589793;
 
@@ -73,6 +78,9 @@ struct Case {
 Case decodeCase(const pbt::Tape& t, pbt::Reader& g, bool allowCons, bool allowMotion) {
     Case c;
     mbgen::Options mo; mo.maxBodies = 4; mo.allowUnnormalizedQuat = false; mo.uRange = 1.0;
+    // LineOrientation / FreeLine have a coordinate freedom (spin about Mz) without a mobility; all three solvers form their
+    // gradients through u-space (J^T f, then N^-T), so that freedom is invisible to them: outside the domain (see notes)
+    mo.without({mbgen::LineOrientation, mbgen::FreeLine});
     consgen::Options co; co.maxCons = 3; co.allowNonlinearCouplers = false; co.allowTimeDependence = false;
     co.only({consgen::Rod, consgen::Ball, consgen::Weld, consgen::PointInPlane, consgen::PointOnLine, consgen::ConstantAngle, consgen::ConstantOrientation, consgen::ConstantCoordinate, consgen::CoordinateCoupler});
     const int n = (int)t.size() - 1;
@@ -108,7 +116,7 @@ bool fullRowRank(const consgen::BuiltCons& m, const State& s, const std::vector<
     return ev.front() > 1e-8 * std::max(ev.back(), 1.0);
 }
 
-double rotAngle(const Rotation& A, const Rotation& B) { Mat33 M = ~A.asMat33() * B.asMat33(); double c = (M(0, 0) + M(1, 1) + M(2, 2) - 1) / 2; double s2 = 0; Mat33 K = M - ~M; s2 = std::sqrt(K(0, 1) * K(0, 1) + K(0, 2) * K(0, 2) + K(1, 2) * K(1, 2)); return std::atan2(s2, c); }
+double rotAngle(const Rotation& A, const Rotation& B) { Mat33 M = ~A.asMat33() * B.asMat33(); double c = (M(0, 0) + M(1, 1) + M(2, 2) - 1) / 2; double s2 = 0; Mat33 K = M - ~M; s2 = 0.5 * std::sqrt(K(0, 1) * K(0, 1) + K(0, 2) * K(0, 2) + K(1, 2) * K(1, 2)); return std::atan2(s2, c); }
 double poseDist(const Transform& A, const Transform& B) { return std::max(rotAngle(A.R(), B.R()), (A.p() - B.p()).norm()); }
 
 // start state = reference perturbed; perturbation halved until every coordinate is inside its documented domain
@@ -143,6 +151,9 @@ struct QValRef { int body; int q; double value; double w; bool isError; };
 
 double errNorm(const std::vector<double>& e, bool rms) { if (e.empty()) return 0; double s = 0, mx = 0; for (double x : e) { s += x * x; mx = std::max(mx, std::fabs(x)); } return rms ? std::sqrt(s / e.size()) : mx; }
 
+// directed reproducers replay a stored tape with ONE known finding's exclusion switched off
+std::string& ignoredKnown() { static std::string s; return s; }
+bool knownSite(pbt::Ctx& ctx, const char* id) { if (ignoredKnown() == id) return false; return ctx.known(id); }
 bool dbg() { static bool d = getenv("C43_DEBUG") != nullptr; return d; }
 
 // =================================================================== Assembler
@@ -166,6 +177,8 @@ void runAssembler(const pbt::Tape& t, pbt::Reader& g, pbt::Ctx& ctx) {
 
     if (ctx.wantDesc) { c.cm.describe(ctx.desc); ctx.desc << "solver=Assembler accuracy=" << (setAcc ? acc : 0.0) << " (in use " << accUse << ") tolerance=" << (setTol ? tolUse : 0.0) << " (in use " << tolUse << ") rms=" << rms
         << " obs=" << (obsClass ? "noisy" : "exact") << " noise=" << noise << " start=" << startClass << " delta=" << delta << " frames=" << nFrames << " numGrad=" << numGrad << " numJac=" << numJac << " wMarkers=" << wM << " wSensors=" << wO << " permuteObs=" << permuteObs << " assemble(State&)=" << viaStateOverload << "\n"; }
+    if (ctx.wantDesc) for (int i = 0; i < nb; ++i) { const Extra& e = c.ex[i]; ctx.desc << " extras body " << i + 1 << ": markers=" << e.nMarkers; for (int k = 0; k < e.nMarkers; ++k) ctx.desc << " [" << e.station[k] << " w=" << e.mw[k] << (e.obsMissing[k] ? " missing" : "") << "]";
+        ctx.desc << " sensor=" << e.sensor << " lock=" << e.lock << "(q" << e.lockQ << ",atRef=" << e.lockAtRef << ") restrict=" << e.restrict << "(q" << e.rQ << ",a=" << e.rA << ",b=" << e.rB << ") qvalue=" << e.qvalue << "(q" << e.qvQ << ") motion=" << e.motion << "(A=" << e.mA << ",rate=" << e.mRate << ",phase=" << e.mPhase << ",startAtValue=" << e.motionStartAtValue << ")\n"; }
     consgen::labelModel(ctx, c.cm); ctx.label("solver:Assembler");
 
     consgen::BuiltCons m(c.cm);
@@ -245,27 +258,49 @@ void runAssembler(const pbt::Tape& t, pbt::Reader& g, pbt::Ctx& ctx) {
         if (mk) for (int i = 0; i < nM; ++i) mk->moveOneObservation(Markers::ObservationIx(obsOfMarker[i]), ms[i].missing ? Vec3(NaN) : ms[i].obs);
         if (os) for (size_t i = 0; i < ss.size(); ++i) os->moveOneObservation(OrientationSensors::ObservationIx((int)i), ss[i].obs); };
 
+    // known finding: SimbodyMatterSubsystem::convertToEulerAngles (used by Assembler::setInternalState whenever the user's state
+    // is in quaternion mode) re-realizes the Model stage, which resets the recorded lock POSITIONS to the default q while the
+    // lock itself stays on: a mobilizer locked with MobilizedBody::lock()/lockAt() is moved to its default q by assemble().
+    // Site predicate (on the input): a MobilizedBody::lock is present and the model is not in Euler-angle mode.
+    bool convLosesLock = false;
+    { bool site = false; for (int i = 0; i < nb; ++i) if (c.ex[i].lock == 3) site = true; if (site && !c.cm.spec.euler && knownSite(ctx, "euler-conversion-resets-lock-position")) { convLosesLock = true; ctx.label("excluded:euler-conversion-resets-lock-position"); } }
+    // (with this site active nothing is judged: the mobilizer jumps to its DEFAULT q, which changes every other outcome and, for a
+    // CantileverFreeBeam, is uninitialised memory -- finding C10 cantileverfreebeam-default-q-uninitialized)
+    if (convLosesLock) { ctx.label("solver:Assembler:not-judged"); return; }
+    const bool prescribedMoves = motionStartOff || convLosesLock;
     // checks shared by assemble and track; sBefore = user's state before the call, sAfter = after updateFromInternalState
     auto judge = [&](const char* what, const State& sBefore, const State& sAfter, const Vector& qiBefore, double tNow, double gret, double g0lib, bool startFeasible, bool monotoneApplies, double slack) -> bool {
-        m.sys.realize(sAfter, Stage::Position);
+        m.sys.realize(sAfter, Stage::Position); m.sys.realize(sBefore, Stage::Position);
         const State& si = ik.getInternalState();
+        // "returned the start": every FREE q is bitwise its start value (short circuit, or assemble()'s revert)
+        bool returnedStart = true; for (int k = 0; k < ik.getNumFreeQs(); ++k) { int qx = ik.getQIndexOfFreeQ(Assembler::FreeQIndex(k)); if (si.getQ()[qx] != qiBefore[qx]) returnedStart = false; }
+        // known finding: assemble() evaluates the initial error norm and goal BEFORE it moves the prescribed q's to their values. If they
+        // look good enough it returns at once (prescribed q's never set); if it later reverts to the start (the optimizer made the goal
+        // worse) it reports the stale initial goal/error for a configuration it no longer has (constraints can be violated).
+        // Site predicate: a prescribed/locked q was off its value at the start and the free q's are bitwise the start values.
+        bool staleStart = false;
+        if (std::string(what) == "assemble" && prescribedMoves && returnedStart && knownSite(ctx, "assemble-start-evaluated-before-prescribe")) { staleStart = true; ctx.label("excluded:assemble-start-evaluated-before-prescribe"); }
         // A1 errors
         std::vector<double> e = myErrors(sAfter); double en = errNorm(e, rms), tol = ik.getErrorToleranceInUse();
         if (!ctx.check(std::fabs(tol - tolUse) <= 1e-15 * tolUse, std::string(what) + ": getErrorToleranceInUse()=" + S(tol) + " but the documented rule gives " + S(tolUse))) return false;
-        if (!ctx.check(en <= tol * (1 + 1e-9) + 1e-13, std::string(what) + " returned normally but the " + (rms ? "RMS" : "max") + " norm of the position-constraint/error-condition errors recomputed from the returned state is " + S(en) + " > tolerance in use " + S(tol))) return false;
+        if (!staleStart && !ctx.check(en <= tol * (1 + 1e-9) + 1e-13, std::string(what) + " returned normally but the " + (rms ? "RMS" : "max") + " norm of the position-constraint/error-condition errors recomputed from the returned state is " + S(en) + " > tolerance in use " + S(tol))) return false;
         double enLib = ik.calcCurrentErrorNorm();
         if (!ctx.check(std::fabs(enLib - en) <= 1e-9 * (1 + en) , std::string(what) + ": calcCurrentErrorNorm()=" + S(enLib) + " differs from the norm recomputed from the returned state " + S(en))) return false;
         // A2 locks
-        for (auto& l : lockedQs) { int qx = m.mb[l.body].getFirstQIndex(si) + l.q; if (!ctx.check(si.getQ()[qx] == qiBefore[qx], std::string(what) + ": locked coordinate q" + std::to_string(l.q) + " of body " + std::to_string(l.body) + " changed in the internal state from " + S(qiBefore[qx]) + " to " + S(si.getQ()[qx]))) return false; }
-        for (int i = 0; i < nb; ++i) if (c.ex[i].lock == 1 || c.ex[i].lock == 3) { double d = poseDist(m.mb[i + 1].getMobilizerTransform(sBefore), m.mb[i + 1].getMobilizerTransform(sAfter));
+        for (auto& l : lockedQs) { if (c.ex[l.body - 1].lock == 3 && convLosesLock) continue; int qx = m.mb[l.body].getFirstQIndex(si) + l.q; if (!ctx.check(si.getQ()[qx] == qiBefore[qx], std::string(what) + ": locked coordinate q" + std::to_string(l.q) + " of body " + std::to_string(l.body) + " changed in the internal state from " + S(qiBefore[qx]) + " to " + S(si.getQ()[qx]))) return false; }
+        for (int i = 0; i < nb; ++i) if (c.ex[i].lock == 1 || (c.ex[i].lock == 3 && !convLosesLock)) { double d = poseDist(m.mb[i + 1].getMobilizerTransform(sBefore), m.mb[i + 1].getMobilizerTransform(sAfter));
             if (!ctx.check(d <= 1e-10, std::string(what) + ": locked mobilizer of body " + std::to_string(i + 1) + " moved by " + S(d))) return false; }
         for (int i = 0; i < nb; ++i) if (c.ex[i].lock == 2 && (c.cm.spec.euler || !mbgen::mobHasQuaternion(c.cm.spec.bodies[i].type)) && m.mb[i + 1].getNumQ(sAfter) > 0) { int k = c.ex[i].lockQ % m.mb[i + 1].getNumQ(sAfter);
             if (!ctx.check(m.mb[i + 1].getOneQ(sAfter, k) == m.mb[i + 1].getOneQ(sBefore, k), std::string(what) + ": individually locked q" + std::to_string(k) + " of body " + std::to_string(i + 1) + " changed from " + S(m.mb[i + 1].getOneQ(sBefore, k)) + " to " + S(m.mb[i + 1].getOneQ(sAfter, k)))) return false; }
         // A3 prescribed
-        for (int i = 0; i < nb; ++i) if (c.ex[i].motion) { double v = c.ex[i].mA * std::sin(c.ex[i].mRate * tNow + c.ex[i].mPhase); for (int k = 0; k < m.mb[i + 1].getNumQ(sAfter); ++k)
+        for (int i = 0; i < nb; ++i) if (c.ex[i].motion && !staleStart) { double v = c.ex[i].mA * std::sin(c.ex[i].mRate * tNow + c.ex[i].mPhase); for (int k = 0; k < m.mb[i + 1].getNumQ(sAfter); ++k)
             if (!ctx.check(std::fabs(m.mb[i + 1].getOneQ(sAfter, k) - v) <= 1e-14, std::string(what) + ": prescribed q" + std::to_string(k) + " of body " + std::to_string(i + 1) + " is " + S(m.mb[i + 1].getOneQ(sAfter, k)) + " but the prescribed value at t=" + S(tNow) + " is " + S(v))) return false; }
         // A4 bounds (IPOPT relaxes bounds by 1e-8 relative: documented optimizer convention)
         for (auto& bx : boxes) { bool isLocked = false; for (auto& l : lockedQs) if (l.body == bx.body && l.q == bx.q) isLocked = true; if (isLocked) continue;
+            // known finding: assemble() short-circuits / reverts to the START configuration without looking at the bounds.
+            // Site predicate: this q started outside its range and the whole internal q vector is bitwise the start vector.
+            { double qs = qiBefore[m.mb[bx.body].getFirstQIndex(si) + bx.q];
+              if (returnedStart && (qs < bx.lo || qs > bx.hi) && knownSite(ctx, "assemble-returns-start-outside-bounds")) { ctx.label("excluded:assemble-returns-start-outside-bounds"); continue; } }
             double q = m.mb[bx.body].getOneQ(si, bx.q), sl = 1e-7 * std::max(1.0, std::max(std::isfinite(bx.lo) ? std::fabs(bx.lo) : 0.0, std::isfinite(bx.hi) ? std::fabs(bx.hi) : 0.0));
             if (!ctx.check(q >= bx.lo - sl && q <= bx.hi + sl, std::string(what) + ": restricted q" + std::to_string(bx.q) + " of body " + std::to_string(bx.body) + " = " + S(q) + " is outside its range [" + S(bx.lo) + "," + S(bx.hi) + "]")) return false;
             if (!mbgen::mobHasQuaternion(c.cm.spec.bodies[bx.body - 1].type)) { double qu = m.mb[bx.body].getOneQ(sAfter, bx.q); if (!ctx.check(qu >= bx.lo - sl && qu <= bx.hi + sl, std::string(what) + ": restricted q (user's state) outside its range: " + S(qu))) return false; } }
@@ -275,7 +310,7 @@ void runAssembler(const pbt::Tape& t, pbt::Reader& g, pbt::Ctx& ctx) {
         // A6 goal
         double wm, wsn; double gMine = myGoal(sAfter, wm, wsn); double gLib = ik.calcCurrentGoal();
         if (!ctx.check(std::isfinite(gret) && gret >= 0, std::string(what) + " returned goal " + S(gret))) return false;
-        if (!ctx.check(std::fabs(gret - gLib) <= 1e-12 * (1 + gLib), std::string(what) + " returned " + S(gret) + " but calcCurrentGoal() afterwards is " + S(gLib))) return false;
+        if (!staleStart && !ctx.check(std::fabs(gret - gLib) <= 1e-12 * (1 + gLib), std::string(what) + " returned " + S(gret) + " but calcCurrentGoal() afterwards is " + S(gLib))) return false;
         if (!ctx.check(std::fabs(gMine - gLib) <= 1e-9 * (gLib + gMine) + 1e-16, std::string(what) + ": calcCurrentGoal()=" + S(gLib) + " but the documented weighted goal recomputed from body poses is " + S(gMine))) return false;
         // A7 monotone
         if (monotoneApplies && startFeasible) { if (!ctx.check(gret <= g0lib * (1 + 1e-12) + slack, std::string(what) + " from a feasible start made the goal worse: " + S(g0lib) + " -> " + S(gret))) return false; ctx.label(std::string("clause:monotone:") + what); }
@@ -293,11 +328,14 @@ void runAssembler(const pbt::Tape& t, pbt::Reader& g, pbt::Ctx& ctx) {
           double em = errNorm(myErrors(s0), rms); ctx.check(std::fabs(em - e0lib) <= 1e-9 * (1 + em), "start: calcCurrentErrorNorm()=" + S(e0lib) + " but recomputed " + S(em)); if (ctx.failed) return; }
         phase = "assemble";
         s1 = s0;
+        auto tA = std::chrono::steady_clock::now();
         if (viaStateOverload) { gret = ik.assemble(s1); } else { gret = ik.assemble(); ik.updateFromInternalState(s1); }
+        if (dbg()) fprintf(stderr, "C43DBG assemble took %.3f evals goal=%d grad=%d err=%d jac=%d\n", std::chrono::duration<double>(std::chrono::steady_clock::now() - tA).count(), ik.getNumGoalEvals(), ik.getNumGoalGradientEvals(), ik.getNumErrorEvals(), ik.getNumErrorJacobianEvals());
         ok = true;
     } catch (const std::exception& e) {
         std::string w = e.what(); bool af = w.find("Assembler::assemble() failed") != std::string::npos;
         if (ctx.wantDesc) ctx.desc << "exception in " << phase << ": " << w.substr(0, 400) << "\n";
+        if (dbg()) { std::string w1 = w; for (auto& ch : w1) if (ch == '\n') ch = ' '; fprintf(stderr, "C43DBG exc %s: %s\n", phase.c_str(), w1.substr(0, 300).c_str()); }
         ctx.reject(af ? "AssembleFailed" : phase == "initialize" ? "exception-in-initialize" : "other-exception-in-assemble");
         ctx.label(std::string("failed:start") + (startClass == 2 ? "AtRef" : startClass == 3 ? "Far" : "Near") + (obsClass ? ":noisy" : ":exact"));
         return;
@@ -307,7 +345,8 @@ void runAssembler(const pbt::Tape& t, pbt::Reader& g, pbt::Ctx& ctx) {
     const bool exactReachable = obsClass == 0 && !motionStartOff ? true : obsClass == 0;   // prescribed q end at their value either way
     bool lockedAtRef = true; for (int i = 0; i < nb; ++i) if (c.ex[i].lock && !c.ex[i].lockAtRef) lockedAtRef = false;
     bool boxesContain = true; for (int i = 0; i < nb; ++i) if (c.ex[i].restrict == 2 && !c.ex[i].motion && m.mb[i + 1].getNumQ(eref) > 0) boxesContain = false;
-    if (!judge("assemble", s0, s1, qi0, 0.0, gret, g0lib, startFeasible, !motionStartOff, 0.0)) return;
+    bool startInBoxes = true; for (auto& bx : boxes) { double qs = qi0[m.mb[bx.body].getFirstQIndex(ik.getInternalState()) + bx.q]; if (!(qs >= bx.lo && qs <= bx.hi)) startInBoxes = false; }
+    if (!judge("assemble", s0, s1, qi0, 0.0, gret, g0lib, startFeasible, !prescribedMoves && startInBoxes, 0.0)) return;
     ctx.label(startFeasible ? "start:feasible" : "start:infeasible");
     ctx.label(startClass == 2 ? "start:at-reference" : startClass == 3 ? "start:far" : "start:near");
     ctx.label(obsClass ? "obs:noisy" : "obs:exact");
@@ -321,11 +360,20 @@ void runAssembler(const pbt::Tape& t, pbt::Reader& g, pbt::Ctx& ctx) {
     // A8 exact data, everything reachable, near start: residuals vanish to accuracy-scaled bounds
     const bool singular = eulerNearSingular(c, m, sref) || eulerNearSingular(c, m, s0);
     double wm = 0, wsn = 0; double gEnd = myGoal(s1, wm, wsn);
-    const bool zeroClause = obsClass == 0 && lockedAtRef && boxesContain && startDist <= 0.05 && !singular;
+    const bool zeroClause = obsClass == 0 && !convLosesLock && lockedAtRef && boxesContain && startDist <= 0.05 && !singular;
+    if (dbg()) fprintf(stderr, "C43DBG evals goal=%d grad=%d err=%d jac=%d\n", ik.getNumGoalEvals(), ik.getNumGoalGradientEvals(), ik.getNumErrorEvals(), ik.getNumErrorJacobianEvals());
     if (dbg()) fprintf(stderr, "C43DBG asm zero=%d acc=%g tol=%g mp=%d start=%g g0=%g g=%g wm=%g ws=%g nfree=%d lock=%d bound=%d numGrad=%d feasible=%d\n", (int)zeroClause, accUse, tolUse, mp, startDist, g0lib, gEnd, wm, wsn, ik.getNumFreeQs(), (int)anyLock, (int)anyBound, (int)numGrad, (int)startFeasible);
-    if (zeroClause) {
+    // Not judged when the search is IPOPT's (constraints / error conditions): from an infeasible near start it may legitimately end on
+    // another branch of the constraint manifold (e.g. the mirror solution of a ConstantAngle) where the goal cannot vanish, and its
+    // stopping point relative to 'accuracy' has a heavy tail (observed ratios up to 1e4); only labelled.
+    const bool ipoptA = mp > 0 || std::any_of(qvals.begin(), qvals.end(), [](const QValRef& r) { return r.isError; });
+    if (zeroClause && ipoptA) ctx.label(std::max(wm, wsn) <= 1e4 * accUse + 10 * tolUse ? "constrained:zero-goal-reached" : "constrained:zero-goal-not-reached");
+    if (zeroClause && !ipoptA && !getenv("C43_NOZERO")) {
         ctx.label("clause:zero-goal");
-        const double bM = 100 * accUse + 10 * tolUse, bS = 100 * accUse + 10 * tolUse;
+        // calibrated (notes/C43.md): worst residual / accuracy observed 13 (LBFGS), ~200 (InteriorPoint), 1613 (LBFGSB, whose pgtol is absolute)
+        const bool ipopt = mp > 0 || std::any_of(qvals.begin(), qvals.end(), [](const QValRef& r) { return r.isError; });
+        const double C = ipopt ? 1e4 : anyBound ? 3e4 : 300, bM = C * accUse + 10 * tolUse, bS = bM;
+        { double a, b; myGoal(s0, a, b); if (bM < std::max(a, b) / 3) ctx.label("clause:zero-goal:binding"); }
         if (!ctx.check(wm <= bM, "exact markers generated from a reachable configuration, start within " + S(startDist) + " of it: worst marker residual after assemble() is " + S(wm) + " > " + S(bM) + " (accuracy " + S(accUse) + ")")) return;
         if (!ctx.check(wsn <= bS, "exact orientation observations from a reachable configuration, start within " + S(startDist) + ": worst sensor angle after assemble() is " + S(wsn) + " > " + S(bS))) return;
     }
@@ -353,7 +401,10 @@ void runAssembler(const pbt::Tape& t, pbt::Reader& g, pbt::Ctx& ctx) {
         try {
             setObservations(markers, sensors);
             g0f = ik.calcCurrentGoal(); e0f = ik.calcCurrentErrorNorm(); qiB = ik.getInternalState().getQ();
-            gf = ik.track(tNow); ik.updateFromInternalState(s2); s2.setTime(tNow);
+            auto tA = std::chrono::steady_clock::now();
+            try { gf = ik.track(tNow); } catch (...) { if (dbg()) fprintf(stderr, "C43DBG track threw after %.3f evals goal=%d grad=%d err=%d jac=%d\n", std::chrono::duration<double>(std::chrono::steady_clock::now() - tA).count(), ik.getNumGoalEvals(), ik.getNumGoalGradientEvals(), ik.getNumErrorEvals(), ik.getNumErrorJacobianEvals()); throw; }
+            if (dbg()) fprintf(stderr, "C43DBG track took %.3f evals goal=%d grad=%d err=%d jac=%d\n", std::chrono::duration<double>(std::chrono::steady_clock::now() - tA).count(), ik.getNumGoalEvals(), ik.getNumGoalGradientEvals(), ik.getNumErrorEvals(), ik.getNumErrorJacobianEvals());
+            ik.updateFromInternalState(s2); s2.setTime(tNow);
         } catch (const std::exception& e) {
             std::string w = e.what(); if (ctx.wantDesc) ctx.desc << "exception in track: " << w.substr(0, 400) << "\n";
             ctx.label(w.find("Assembler::track() failed") != std::string::npos ? "track:TrackFailed" : "track:other-exception"); return;
@@ -361,35 +412,281 @@ void runAssembler(const pbt::Tape& t, pbt::Reader& g, pbt::Ctx& ctx) {
         if (!ctx.check(ik.isInitialized() && ik.getNumInitializations() == (viaStateOverload ? 2 : 1), "track() reinitialized the Assembler (" + std::to_string(ik.getNumInitializations()) + " initializations)")) return;
         // monotone clause for track: the start of a frame is feasible to tolerance; slack covers trading goal for the
         // last bit of feasibility (documented nowhere; calibrated, see notes)
-        if (!judge("track", sPrev, s2, qiB, tNow, gf, g0f, e0f <= tolUse, !anyMotion, 1e300)) return;
+        bool insideBoxes = true; for (auto& bx : boxes) { double qs = qiB[m.mb[bx.body].getFirstQIndex(ik.getInternalState()) + bx.q]; if (!(qs >= bx.lo && qs <= bx.hi)) insideBoxes = false; }
+        const bool ipoptT = mp > 0 || std::any_of(qvals.begin(), qvals.end(), [](const QValRef& r) { return r.isError; });
+        const double slackT = ipoptT ? 100 * tolUse * std::sqrt(2 * g0f) + 100 * tolUse * tolUse : 0.0;
+        if (dbg() && e0f <= tolUse && insideBoxes && !anyMotion && !convLosesLock && gf > g0f) fprintf(stderr, "C43DBG trkworse ipopt=%d g0=%g g=%g slack=%g ratio=%g\n", (int)ipoptT, g0f, gf, slackT, (gf - g0f) / std::max(slackT, 1e-300));
+        // goal-not-worse for track(): judged for the descent optimizers only. With constraints the search is IPOPT's and track() (unlike
+        // assemble()) has no guard: small increases while the constraint error is driven from <= tolerance towards 0 are inherent, larger
+        // ones (5% seen) happen; no sound bound is known, so the case is only labelled.
+        if (ipoptT && e0f <= tolUse && insideBoxes && !anyMotion && gf > g0f * (1 + 1e-12) + slackT) ctx.label("track:ipopt-goal-worse-than-start");
+        if (!judge("track", sPrev, s2, qiB, tNow, gf, g0f, e0f <= tolUse, !anyMotion && !convLosesLock && insideBoxes && !ipoptT, 0.0)) return;
         ctx.label("track:frames");
         double wm2, ws2; myGoal(s2, wm2, ws2);
-        const bool zero2 = mp == 0 && qvals.empty() && boxesContain && !singular && !eulerNearSingular(c, m, sr2);
-        if (dbg()) fprintf(stderr, "C43DBG trk zero=%d acc=%g tol=%g mp=%d g0=%g g=%g wm=%g ws=%g feasible=%d\n", (int)zero2, accUse, tolUse, mp, g0f, gf, wm2, ws2, (int)(e0f <= tolUse));
+        double distPrev = 0; { m.sys.realize(sPrev, Stage::Position); for (int i = 1; i <= nb; ++i) distPrev = std::max(distPrev, poseDist(m.mb[i].getMobilizerTransform(sPrev), m.mb[i].getMobilizerTransform(sr2))); }
+        const bool zero2 = mp == 0 && qvals.empty() && !anyLock && !anyBound && !convLosesLock && !singular && !eulerNearSingular(c, m, sr2) && distPrev <= 0.05;
+        if (zero2 && !getenv("C43_NOZERO")) { ctx.label("clause:zero-goal:track"); const double bT = 1e4 * accUse + 10 * tolUse;   // observed max 560 x accuracy
+            if (!ctx.check(wm2 <= bT && ws2 <= bT, "track(): exact observations generated from a reachable configuration 0.02 from the previous frame, no constraints/locks/bounds: worst marker residual " + S(wm2) + ", worst sensor angle " + S(ws2) + " > " + S(bT) + " (accuracy " + S(accUse) + ")")) return; }
+        if (dbg()) fprintf(stderr, "C43DBG trk zero=%d acc=%g tol=%g mp=%d g0=%g g=%g wm=%g ws=%g feasible=%d motion=%d lock=%d bound=%d conv=%d frame=%d obs=%d\n", (int)zero2, accUse, tolUse, mp, g0f, gf, wm2, ws2, (int)(e0f <= tolUse), (int)anyMotion, (int)anyLock, (int)anyBound, (int)convLosesLock, f, obsClass);
         sPrev = s2;
     }
 }
 
 // =================================================================== ObservedPointFitter
 void runFitter(const pbt::Tape& t, pbt::Reader& g, pbt::Ctx& ctx) {
-    ctx.label("solver:ObservedPointFitter"); ctx.reject("todo");
+    const bool allowCons = g.chance(1, 3);
+    Case c = decodeCase(t, g, allowCons, false);
+    const int nb = c.cm.spec.nBodies();
+    const double tol = std::pow(10.0, -2.0 - 4.0 * g.unit());   // 1e-2 .. 1e-6
+    const int obsClass = g.pick(3) == 2 ? 1 : 0; const double noise = 0.02 + 0.2 * g.unit();
+    const int startClass = g.pick(4); const double delta = startClass == 2 ? 0.0 : startClass == 3 ? 0.1 + 0.4 * g.unit() : 0.02 + 0.01 * g.unit();
+    const int api = g.pick(4);          // 0 Array_ weighted, 1 Array_ unweighted, 2 std::vector weighted, 3 std::vector unweighted
+    const bool defaultTol = g.chance(1, 6); const bool conStartRef = g.boolean();
+    const bool weighted = api == 0 || api == 2; const double tolUse = defaultTol ? 1e-3 : tol;
+    if (ctx.wantDesc) { c.cm.describe(ctx.desc); ctx.desc << "solver=ObservedPointFitter tolerance=" << tolUse << (defaultTol ? " (default)" : "") << " obs=" << (obsClass ? "noisy" : "exact") << " noise=" << noise << " start=" << startClass << " delta=" << delta << " api=" << api << "\n";
+        for (int i = 0; i < nb; ++i) { const Extra& e = c.ex[i]; ctx.desc << " extras body " << i + 1 << ": stations=" << e.nMarkers; for (int k = 0; k < e.nMarkers; ++k) ctx.desc << " [" << e.station[k] << " w=" << e.mw[k] << "]"; ctx.desc << "\n"; } }
+    consgen::labelModel(ctx, c.cm); ctx.label("solver:ObservedPointFitter");
+    consgen::BuiltCons m(c.cm); m.finish(c.cm.spec); m.setState(c.cm.spec);
+    State sref = m.state; if (sref.getNQ() == 0) { ctx.reject("nq=0"); return; }
+    m.sys.realize(sref, Stage::Velocity);
+    const int mp = sref.getNQErr() - m.matter.getNumQuaternionsInUse(sref);
+    { double e = 0; for (int i = 0; i < mp; ++i) e = std::max(e, std::fabs(sref.getQErr()[i])); if (!(e <= 1e-10)) { ctx.reject("reference-not-assembled"); return; } }
+    { std::string why; for (auto& k : c.cm.cons) if (consgen::degenerateAt(k, m, sref, why)) { ctx.reject("degenerate-geometry"); return; } }
+    std::vector<bool> fixed(nb + 1, false), keepRef(nb + 1, false);
+    if (!fullRowRank(m, sref, fixed)) { ctx.reject("rank-deficient-constraints"); return; }
+    Array_<MobilizedBodyIndex> bodyIxs; Array_<Array_<Vec3> > stations, targets; Array_<Array_<Real> > weights; double wtot = 0; int nStations = 0;
+    for (int i = 0; i < nb; ++i) { const Extra& e = c.ex[i]; if (e.nMarkers == 0 && i % 2 == 0) continue;   // bodies without stations may or may not be listed
+        bodyIxs.push_back(m.mb[i + 1].getMobilizedBodyIndex()); stations.push_back(Array_<Vec3>()); targets.push_back(Array_<Vec3>()); weights.push_back(Array_<Real>());
+        for (int k = 0; k < e.nMarkers; ++k) { stations.back().push_back(e.station[k]); Vec3 p = m.mb[i + 1].findStationLocationInGround(sref, e.station[k]); if (obsClass) p += noise * e.noiseDir[k]; targets.back().push_back(p);
+            double w = weighted ? e.mw[k] : 1.0; weights.back().push_back(w); wtot += w; nStations++; } }
+    if (!(wtot > 0)) { ctx.reject("no-stations"); return; }
+    // constrained models: half of the starts are the (assembled) reference, so that the no-worse clause has a feasible start
+    State s0; perturb(c, m, sref, mp > 0 && conStartRef ? 0.0 : delta, keepRef, s0); m.sys.realize(s0, Stage::Position);
+    double startDist = 0; for (int i = 1; i <= nb; ++i) startDist = std::max(startDist, poseDist(m.mb[i].getMobilizerTransform(s0), m.mb[i].getMobilizerTransform(sref)));
+    auto wrms = [&](const State& s, double& worst) { double e = 0; worst = 0; for (int i = 0; i < (int)bodyIxs.size(); ++i) for (int j = 0; j < (int)stations[i].size(); ++j) {
+        double d2 = (m.matter.getMobilizedBody(bodyIxs[i]).findStationLocationInGround(s, stations[i][j]) - targets[i][j]).normSqr(); e += weights[i][j] * d2; if (weights[i][j] > 0) worst = std::max(worst, std::sqrt(d2)); } return std::sqrt(e / wtot); };
+    double w0; const double r0 = wrms(s0, w0);
+    State s1 = s0; double r = NaN;
+    try {
+        if (api == 0) r = ObservedPointFitter::findBestFit(m.sys, s1, bodyIxs, stations, targets, weights, tolUse);
+        else if (api == 1) r = defaultTol ? ObservedPointFitter::findBestFit(m.sys, s1, bodyIxs, stations, targets) : ObservedPointFitter::findBestFit(m.sys, s1, bodyIxs, stations, targets, tolUse);
+        else { std::vector<MobilizedBodyIndex> b(bodyIxs.begin(), bodyIxs.end()); std::vector<std::vector<Vec3> > st, tg; std::vector<std::vector<Real> > ww;
+            for (int i = 0; i < (int)bodyIxs.size(); ++i) { st.push_back(std::vector<Vec3>(stations[i].begin(), stations[i].end())); tg.push_back(std::vector<Vec3>(targets[i].begin(), targets[i].end())); ww.push_back(std::vector<Real>(weights[i].begin(), weights[i].end())); }
+            r = api == 2 ? ObservedPointFitter::findBestFit(m.sys, s1, b, st, tg, ww, tolUse) : ObservedPointFitter::findBestFit(m.sys, s1, b, st, tg, tolUse); }
+    } catch (const std::exception& e) { if (ctx.wantDesc) ctx.desc << "exception: " << std::string(e.what()).substr(0, 300) << "\n"; ctx.reject("fitter-exception"); ctx.label(std::string("failed:fitter:") + (mp ? "constrained" : "tree")); return; }
+    m.sys.realize(s1, Stage::Position);
+    // F1 the reported value is the weighted RMS distance of the returned configuration
+    double w1; const double r1 = wrms(s1, w1);
+    if (!ctx.check(std::isfinite(r) && r >= 0, "findBestFit returned " + S(r))) return;
+    if (!ctx.check(std::fabs(r * r - r1 * r1) <= 1e-9 * (r1 * r1) + 1e-13, "findBestFit returned " + S(r) + " but the weighted RMS distance of the stations in the returned state from their targets is " + S(r1))) return;
+    // F2 position constraints (the fitter leaves the Optimizer's default constraint tolerance 1e-4 in force)
+    // (no constraint tolerance is documented for the fitter: IPOPT's constr_viol_tol stays at the Optimizer default 1e-4 and its overall
+    //  'tol' is the fitter's tolerance; a fully constrained SphericalCoords case returned 7.3e-3 at tolerance 1.7e-3 -> bound
+    //  max(1e-4, 10 x tolerance))
+    { double e = 0; for (int i = 0; i < mp; ++i) e = std::max(e, std::fabs(s1.getQErr()[i])); const double bE = std::max(1e-4 * (1 + 1e-6) + 1e-12, 10 * tolUse);
+      if (!ctx.check(e <= bE, "findBestFit returned normally but the position-constraint error of the returned state is " + S(e) + " > " + S(bE))) return; }
+    // F3 only q changes. Known finding: in quaternion mode the fitter round-trips the state through
+    // SimbodyMatterSubsystem::convertToEulerAngles/convertToQuaternions, which re-realize the Model stage and thereby reset u
+    // (and every other variable allocated at Model stage) to its default. Site predicate (input): state not in Euler mode.
+    if (!c.cm.spec.euler && knownSite(ctx, "euler-conversion-resets-u")) ctx.label("excluded:euler-conversion-resets-u");
+    else if (!ctx.check(s1.getNU() == s0.getNU() && (s1.getNU() == 0 || (s1.getU() - s0.getU()).normInf() == 0) && s1.getTime() == s0.getTime(), "findBestFit changed u or time of the state (documented: 'on exit, this State's Q vector contains the values which provide a best fit')")) return;
+    if (!ctx.check(m.matter.getUseEulerAngles(s1) == c.cm.spec.euler && s1.getNQ() == s0.getNQ(), "findBestFit changed the modelling options of the state")) return;
+    const bool singular = eulerNearSingular(c, m, sref) || eulerNearSingular(c, m, s0);
+    if (dbg()) fprintf(stderr, "C43DBG opf tol=%g mp=%d start=%g r0=%g r=%g w1=%g obs=%d sing=%d nst=%d nq=%d\n", tolUse, mp, startDist, r0, r1, w1, obsClass, (int)singular, nStations, s0.getNQ());
+    // F4 the fit is no worse than the start (slack: the fitter stops at 'tolerance'); F5 exact data, near start: residual ~ tolerance.
+    // Known finding: the final search starts from the per-body estimates (and is IPOPT's, no descent method, with constraints) and
+    // nothing compares the result with the caller's start: the returned fit can be (much) worse. Site predicate: feasible start.
+    double e0 = 0; for (int i = 0; i < mp; ++i) e0 = std::max(e0, std::fabs(s0.getQErr()[i]));
+    bool f4 = e0 <= 1e-4; if (!f4) ctx.label("start:infeasible");
+    if (f4 && knownSite(ctx, "opf-fit-worse-than-start")) { f4 = false; ctx.label("excluded:opf-fit-worse-than-start"); }
+    if (f4) { ctx.label("clause:fit-monotone");
+        if (!ctx.check(r1 <= r0 * (1 + 1e-6) + 20 * tolUse, "findBestFit made the fit worse: weighted RMS distance " + S(r0) + " at the start, " + S(r1) + " returned (tolerance " + S(tolUse) + ")")) return;
+        // (trees only: with constraints the final search is IPOPT's, whose stopping point relative to 'tolerance' has a heavy tail)
+        if (mp == 0 && obsClass == 0 && startDist <= 0.05 && !singular) { ctx.label("clause:zero-goal:fitter"); if (200 * tolUse < r0 / 3) ctx.label("clause:zero-goal:binding");
+            if (!ctx.check(r1 <= 200 * tolUse, "exact targets generated from a reachable configuration, start within " + S(startDist) + " of it: findBestFit returned a fit with RMS distance " + S(r1) + " > 200 x tolerance " + S(tolUse))) return; } }
+    ctx.label(obsClass ? "obs:noisy" : "obs:exact"); ctx.label(startClass == 2 ? "start:at-reference" : startClass == 3 ? "start:far" : "start:near"); if (mp > 0) ctx.label("has:constraints"); ctx.label(mp > 0 ? "optimizer:InteriorPoint" : "optimizer:LBFGS");
+    ctx.label(std::string("fitter-api:") + (api == 0 ? "Array-weighted" : api == 1 ? "Array-unweighted" : api == 2 ? "vector-weighted" : "vector-unweighted"));
+    ctx.nontrivial(startDist >= 0.02 && nb >= 2);
 }
+
 // =================================================================== LocalEnergyMinimizer
 void runMinimizer(const pbt::Tape& t, pbt::Reader& g, pbt::Ctx& ctx) {
-    ctx.label("solver:LocalEnergyMinimizer"); ctx.reject("todo");
+    const bool allowCons = g.chance(1, 3);
+    Case c = decodeCase(t, g, allowCons, false);
+    const int nb = c.cm.spec.nBodies();
+    const double tol = std::pow(10.0, -2.0 - 4.0 * g.unit());   // 1e-2 .. 1e-6
+    Vec3 grav(g.real(-10, 10), g.real(-10, 10), g.real(-10, 10)); const bool useGrav = !g.chance(1, 4); const bool allowMobSprings = !g.chance(1, 4);
+    const int startClass = g.pick(3); const double delta = startClass == 0 ? 0.0 : 0.3 * g.unit();      // 0: start at the reference
+    if (ctx.wantDesc) { c.cm.describe(ctx.desc); ctx.desc << "solver=LocalEnergyMinimizer tolerance=" << tol << " gravity=" << (useGrav ? grav : Vec3(0)) << " start=" << startClass << " delta=" << delta << "\n";
+        for (int i = 0; i < nb; ++i) { const Extra& e = c.ex[i]; ctx.desc << " extras body " << i + 1 << ": spring Ground" << e.sp1 << " - body" << e.sp2 << " k=" << e.k2 << " x0=" << e.x0 << " mobilitySpring=" << (e.mobSpring && allowMobSprings) << "(q" << e.msQ << ",k=" << e.km << ",q0off=" << e.q0off << ")\n"; } }
+    consgen::labelModel(ctx, c.cm); ctx.label("solver:LocalEnergyMinimizer");
+    consgen::BuiltCons m(c.cm);
+    if (useGrav) Force::UniformGravity(m.forces, m.matter, grav);
+    bool anyMobSpring = false;
+    for (int i = 0; i < nb; ++i) { const Extra& e = c.ex[i]; const mbgen::BodySpec& b = c.cm.spec.bodies[i];
+        Force::TwoPointLinearSpring(m.forces, m.mb[0], e.sp1, m.mb[i + 1], e.sp2, e.k2, e.x0);
+        int nq = mbgen::mobNQ(b.type, c.cm.spec.euler);
+        if (allowMobSprings && e.mobSpring && mbgen::mobQDotIsU(b.type) && nq > 0) { int k = e.msQ % nq; Force::MobilityLinearSpring(m.forces, m.mb[i + 1], MobilizerQIndex(k), e.km, b.q[k] + e.q0off); anyMobSpring = true; } }
+    m.forces.setNumberOfThreads(1);
+    m.finish(c.cm.spec); m.setState(c.cm.spec);
+    State sref = m.state; if (sref.getNQ() == 0) { ctx.reject("nq=0"); return; }
+    m.sys.realize(sref, Stage::Velocity);
+    const int mp = sref.getNQErr() - m.matter.getNumQuaternionsInUse(sref);
+    { double e = 0; for (int i = 0; i < mp; ++i) e = std::max(e, std::fabs(sref.getQErr()[i])); if (!(e <= 1e-10)) { ctx.reject("reference-not-assembled"); return; } }
+    { std::string why; for (auto& k : c.cm.cons) if (consgen::degenerateAt(k, m, sref, why)) { ctx.reject("degenerate-geometry"); return; } }
+    std::vector<bool> fixed(nb + 1, false), keepRef(nb + 1, false);
+    if (!fullRowRank(m, sref, fixed)) { ctx.reject("rank-deficient-constraints"); return; }
+    State s0; perturb(c, m, sref, mp > 0 ? 0.0 : delta, keepRef, s0);     // constrained models start assembled (the reference)
+    auto PE = [&](const State& s) { m.sys.realize(s, Stage::Dynamics); return m.sys.calcPotentialEnergy(s); };
+    // energy gradient w.r.t. the mobilities by 5-point differences along qdot = N e_j, projected on the constraint null space
+    auto gradient = [&](const State& s, double& raw) { const int nu = s.getNU(); Vector gu(nu); State w = s; const Vector q = s.getQ(); const double h = 1e-3;
+        for (int j = 0; j < nu; ++j) { w.updQ() = q; w.updU() = 0; w.updU()[j] = 1; m.sys.realize(w, Stage::Velocity); const Vector qd = w.getQDot();
+            auto f = [&](double a) { w.updQ() = q + a * qd; return PE(w); };
+            gu[j] = (8 * (f(h) - f(-h)) - (f(2 * h) - f(-2 * h))) / (12 * h); }
+        raw = nu ? gu.normInf() : 0;
+        if (dbg() && getenv("C43_GRAD")) { std::cerr << "C43DBG gu=" << gu << "\n"; { m.sys.realize(s, Stage::Dynamics); Vector ga; m.matter.multiplyBySystemJacobianTranspose(s, m.sys.getRigidBodyForces(s, Stage::Dynamics), ga); ga += m.sys.getMobilityForces(s, Stage::Dynamics); std::cerr << "C43DBG -(J^T F + f)=" << Vector(-1 * ga) << "\n"; } m.sys.realize(s, Stage::Velocity); Matrix G; m.matter.calcG(s, G); std::cerr << "G=" << G << " qerr=" << s.getQErr() << " q=" << s.getQ() << "\n"; }
+        if (mp > 0) { m.sys.realize(s, Stage::Velocity); Matrix G; m.matter.calcG(s, G); Matrix GGt = G * ~G; Vector rhs = G * gu, lam; FactorLU lu(GGt); lu.solve(rhs, lam); gu -= ~G * lam; }
+        return nu ? gu.normInf() : 0.0; };
+    const double pe0 = PE(s0); double raw0; const double g0 = gradient(s0, raw0);
+    // with the lem-euler-mode-discards-start site active the search starts from the DEFAULT q (uninitialised memory for a
+    // CantileverFreeBeam): the call is made (crash / hang detection) but nothing is judged
+    const bool discardsStart = c.cm.spec.euler && knownSite(ctx, "lem-euler-mode-discards-start");
+    State s1 = s0;
+    if (discardsStart) { ctx.label("excluded:lem-euler-mode-discards-start"); try { LocalEnergyMinimizer::minimizeEnergy(m.sys, s1, tol); } catch (const std::exception&) {} ctx.label("solver:LocalEnergyMinimizer:not-judged"); return; }
+    try { LocalEnergyMinimizer::minimizeEnergy(m.sys, s1, tol); }
+    catch (const std::exception& e) { if (ctx.wantDesc) ctx.desc << "exception: " << std::string(e.what()).substr(0, 300) << "\n"; ctx.reject("minimizer-exception");
+        ctx.label(std::string("failed:minimizer:") + (mp ? "constrained" : "tree") + (anyMobSpring ? ":mobility-spring" : "")); return; }
+    const double pe1 = PE(s1); double raw1; const double g1 = gradient(s1, raw1);
+    const bool singular = eulerNearSingular(c, m, s1) || eulerNearSingular(c, m, s0);
+    if (dbg()) fprintf(stderr, "C43DBG lem tol=%g mp=%d euler=%d pe0=%g pe1=%g g0=%g g1=%g raw1=%g sing=%d mobspring=%d nu=%d\n", tol, mp, (int)c.cm.spec.euler, pe0, pe1, g0, g1, raw1, (int)singular, (int)anyMobSpring, s0.getNU());
+    // E1 energy never increases (from a feasible start).
+    // Known finding 1: when the state already uses Euler angles minimizeEnergy() calls setUseEulerAngles(tempState,true) +
+    // realizeModel(tempState), which re-allocates q with the DEFAULT values: the search starts from the default configuration,
+    // not from the caller's (the result can be far away and have a higher energy than the start). Site predicate: Euler mode.
+    // Known finding 2: with position constraints the search is IPOPT's, which is not a descent method, and minimizeEnergy()
+    // (unlike Assembler::assemble()) does not compare with the start: the energy can go up. Site predicate: mp > 0.
+    bool e1 = true;
+    if (e1 && mp > 0 && knownSite(ctx, "lem-constrained-energy-increase")) { e1 = false; ctx.label("excluded:lem-constrained-energy-increase"); }
+    if (e1) ctx.label("clause:energy-monotone");
+    if (e1 && !ctx.check(pe1 <= pe0 + 1e-9 * (1 + std::fabs(pe0)), "minimizeEnergy increased the potential energy from " + S(pe0) + " to " + S(pe1))) return;
+    // E2 constraints (Optimizer default constraint tolerance 1e-4)
+    { m.sys.realize(s1, Stage::Position); double e = 0; for (int i = 0; i < mp; ++i) e = std::max(e, std::fabs(s1.getQErr()[i])); const double bE = std::max(1e-4 * (1 + 1e-6) + 1e-12, 10 * tol);
+      if (!ctx.check(e <= bE, "minimizeEnergy returned normally but the position-constraint error of the returned state is " + S(e) + " > " + S(bE))) return; }
+    // E3 only q changes ("velocities are ignored"); known finding as in F3
+    if (!c.cm.spec.euler && knownSite(ctx, "euler-conversion-resets-u")) ctx.label("excluded:euler-conversion-resets-u");
+    else if (!ctx.check(s1.getNU() == s0.getNU() && (s1.getNU() == 0 || (s1.getU() - s0.getU()).normInf() == 0) && s1.getTime() == s0.getTime(), "minimizeEnergy changed u or time of the state (documented: 'Only positions (generalized coordinates q) are changed')")) return;
+    if (!ctx.check(m.matter.getUseEulerAngles(s1) == c.cm.spec.euler && s1.getNQ() == s0.getNQ(), "minimizeEnergy changed the modelling options of the state")) return;
+    // E4 normal return = converged: the energy gradient along the mobilities (projected on the constraint null space) is small.
+    // calibrated: g/(tol*max(1,|PE|)) <= 1.5 (LBFGS: its test is |g_i| max(1,|x_i|) / max(0.1,|f|) <= tol), <= 77 (InteriorPoint)
+    // Not judged with constraints: IPOPT (with the numerical constraint Jacobian minimizeEnergy asks for) was seen to return
+    // 'Optimal Solution Found' after wandering to |q| ~ 1e5 rad with a projected gradient of 9 (see notes); only labelled.
+    if (mp > 0 && !singular) ctx.label(g1 <= 1000 * tol * std::max(1.0, std::fabs(pe1)) ? "constrained:stationary" : "constrained:not-stationary");
+    // Known finding: minimizeEnergy's gradient SUBTRACTS the applied mobility forces (dEdU -= getMobilityForces) where the
+    // generalized force is J^T F + f: with any mobility force element the gradient is wrong, LBFGS's line search fails or it
+    // stops at non-stationary points. Site predicate (input): a mobility (generalized) force element is present.
+    // E4 is judged in moderate configurations only: weak springs under heavy gravity put the minimum hundreds of length units away
+    // (|PE| ~ 4e4), where -(J^T F + f) and the finite-difference gradient of calcPotentialEnergy were seen to disagree in the base
+    // body's rotational coordinates (regress-lem-extreme-configuration.tape; not understood, reported in notes) -- labelled only.
+    bool moderate = std::fabs(pe1) <= 1e3; for (int k = 0; k < s1.getNQ(); ++k) if (!(std::fabs(s1.getQ()[k]) <= 20)) moderate = false;
+    if (mp == 0 && !singular && !moderate) ctx.label("gradient:not-judged-extreme-configuration");
+    bool e4 = mp == 0 && !singular && moderate;
+    if (e4 && anyMobSpring && knownSite(ctx, "lem-mobility-force-gradient-sign")) { e4 = false; ctx.label("excluded:lem-mobility-force-gradient-sign"); }
+    if (e4) { ctx.label("clause:gradient"); const double bG = 20 * tol * std::max(1.0, std::fabs(pe1)); if (bG < g0 / 3) ctx.label("clause:gradient:binding");
+        if (!ctx.check(g1 <= bG, "minimizeEnergy returned normally (tolerance " + S(tol) + ") but the potential-energy gradient along the mobilities" + (mp > 0 ? " (projected on the constraint null space)" : "") + " has max component " + S(g1) + " > " + S(bG) + " (PE " + S(pe1) + ")")) return; }
+    if (mp > 0) ctx.label("has:constraints"); ctx.label(mp > 0 ? "optimizer:InteriorPoint" : "optimizer:LBFGS"); if (anyMobSpring) ctx.label("force:mobility-spring"); if (useGrav) ctx.label("force:gravity");
+    ctx.label(pe1 < pe0 - 1e-6 * (1 + std::fabs(pe0)) ? "energy:decreased" : "energy:unchanged");
+    ctx.nontrivial(nb >= 2 && pe1 < pe0 - 1e-6 * (1 + std::fabs(pe0)));
 }
 
 void property(const pbt::Tape& t, pbt::Ctx& ctx) {
+    struct Timer { std::chrono::steady_clock::time_point t0 = std::chrono::steady_clock::now(); pbt::Ctx& c; Timer(pbt::Ctx& c) : c(c) {} ~Timer() { if (dbg()) { double s = std::chrono::duration<double>(std::chrono::steady_clock::now() - t0).count(); std::string l; for (auto& x : c.labels) if (x.rfind("optimizer:", 0) == 0 || x.rfind("solver:", 0) == 0 || x.rfind("rejected:", 0) == 0 || x.rfind("numerical", 0) == 0) l += x + " "; fprintf(stderr, "C43DBG time %.3f %s\n", s, l.c_str()); } } } timer(ctx);
     pbt::Reader g(t[0]);
     const int solver = g.pick(10);
     if (solver <= 5) runAssembler(t, g, ctx); else if (solver <= 7) runFitter(t, g, ctx); else runMinimizer(t, g, ctx);
 }
 
 pbt::Config config() {
-    pbt::Config c; c.prop = "C43"; c.K = KK; c.minUnits = 1;
-    c.quick = {150, 2000, 10, 25}; c.thorough = {1500, 20000, 10, 300};
-    c.rule = "todo";
+    pbt::Config c; c.prop = "C43"; c.K = KK; c.minUnits = 2;
+    c.quick = {400, 1500, 12, 30}; c.thorough = {4000, 25000, 14, 120};
+    c.rule = "rapidcheck tape -> consgen model (mbgen tree of 1..4 bodies, all mobilizer types except LineOrientation/FreeLine, Euler or quaternion mode; 0..3 position constraints out of Rod, Ball, Weld, PointInPlane, PointOnLine, ConstantAngle, ConstantOrientation, ConstantCoordinate, linear CoordinateCoupler, parameters fitted so that the generated configuration is an assembled reference; full row rank of G on the movable mobilities required). Solver by tape: Assembler 60% (markers 0..3 per body with weights incl. 0 and missing observations, orientation sensors, QValue goals/errors, all generated from the reference exactly or with noise; lockMobilizer / lockQ / MobilizedBody::lock / Motion::Sinusoid prescribed q; restrictQ boxes containing or excluding the reference; accuracy 1e-3..1e-7, optional explicit tolerance, RMS/max norm, numerical gradient/Jacobian, permuted observation order, assemble() or assemble(State&); start at / near (0.02-0.03) / far (0.1-0.5) from the reference; 0..2 track() frames with moved observations and time), ObservedPointFitter 20% (1..3 stations per body, weights, 4 overloads, tolerance 1e-2..1e-6), LocalEnergyMinimizer 20% (gravity, a TwoPointLinearSpring per body, MobilityLinearSprings, tolerance 1e-2..1e-6). Non-trivial: Assembler: >=1 constraint, lock or bound and start >= 0.02 from the reference; fitter: >= 2 bodies and start >= 0.02 away; minimizer: >= 2 bodies and energy decreased; distinct by tape hash.";
+    c.assumptions = {"a thrown AssembleFailed/TrackFailed/optimizer exception is a legitimate outcome (rejected; rates reported per class)",
+        "the goal formulas are the documented ones: Markers 1/2 sum w r^2 / sum w, OrientationSensors 1/2 sum w a^2 / sum w, QValue (q-v)^2/2, total = sum weight_i goal_i",
+        "tolerance in use = explicit tolerance, else accuracy/10 (Assembler.h); fitter/minimizer leave the Optimizer's default constraint tolerance 1e-4",
+        "restricted q may exceed its range by 1e-7 relative (IPOPT's documented bound relaxation)",
+        "goal-not-worse is demanded from starts that satisfy the constraints to tolerance and lie inside the q ranges; zero-goal only for exact data, start within 0.05, no Euler-angle singularity, and not when the search is IPOPT's",
+        "LineOrientation/FreeLine are outside the domain (coordinate freedom without a mobility is invisible to the u-space gradients of all three solvers)"};
+    c.requiredLabels = {"solver:Assembler", "solver:ObservedPointFitter", "solver:LocalEnergyMinimizer", "optimizer:InteriorPoint", "optimizer:LBFGSB", "optimizer:LBFGS",
+        "clause:zero-goal", "clause:zero-goal:binding", "clause:monotone:assemble", "clause:monotone:track", "clause:zero-goal:track", "track:frames", "has:lock", "lock:mobilizer", "lock:single-q", "lock:MobilizedBody::lock",
+        "has:bounds-containing-ref", "has:bounds-excluding-ref", "has:prescribed-motion", "has:constraints", "error:qvalue", "goal:orientation-sensors", "clause:gradient", "clause:energy-monotone"};
     c.caseTimeoutSecs = 300;
+    c.directed.push_back({"assemble-returns-start-outside-bounds", "assemble-returns-start-outside-bounds", [](pbt::Ctx& ctx) {
+        // one pin, markers observed at q = 0, start q = -0.02, q restricted to [0.13, 0.23]
+        MultibodySystem sys; SimbodyMatterSubsystem matter(sys); Body::Rigid body(MassProperties(1, Vec3(0), Inertia(1)));
+        MobilizedBody::Pin p1(matter.Ground(), Transform(), body, Transform()); State s = sys.realizeTopology(); sys.realizeModel(s);
+        Assembler ik(sys); Markers* mk = new Markers(); mk->addMarker(p1, Vec3(0.5, 0, 0)); mk->addMarker(p1, Vec3(0, 0.5, 0)); ik.adoptAssemblyGoal(mk);
+        ik.restrictQ(p1, MobilizerQIndex(0), 0.13, 0.23); p1.setQ(s, -0.02); ik.initialize(s);
+        mk->moveOneObservation(Markers::ObservationIx(0), Vec3(0.5, 0, 0)); mk->moveOneObservation(Markers::ObservationIx(1), Vec3(0, 0.5, 0));
+        ik.assemble(); ik.updateFromInternalState(s);
+        ctx.desc << "Pin, markers observed at q=0, start q=-0.02, restrictQ [0.13,0.23]: assemble() returned q=" << p1.getQ(s) << "\n";
+        ctx.check(p1.getQ(s) >= 0.13 - 1e-7 && p1.getQ(s) <= 0.23 + 1e-7, "assemble() returned normally with the restricted q = " + S(p1.getQ(s)) + " outside its range [0.13,0.23] (it went back to the start without looking at the range)");
+    }});
+    c.directed.push_back({"assemble-start-evaluated-before-prescribe", "assemble-start-evaluated-before-prescribe", [](pbt::Ctx& ctx) {
+        // pin 1 carries the markers and starts at the solution; pin 2 is prescribed to 0.3 sin(t + 0.5) but starts at 0
+        MultibodySystem sys; SimbodyMatterSubsystem matter(sys); Body::Rigid body(MassProperties(1, Vec3(0), Inertia(1)));
+        MobilizedBody::Pin p1(matter.Ground(), Transform(), body, Transform()); MobilizedBody::Pin p2(p1, Transform(Vec3(1, 0, 0)), body, Transform());
+        Motion::Sinusoid(p2, Motion::Position, 0.3, 1.0, 0.5);
+        State s = sys.realizeTopology(); sys.realizeModel(s);
+        Assembler ik(sys); Markers* mk = new Markers(); mk->addMarker(p1, Vec3(0.5, 0, 0)); mk->addMarker(p1, Vec3(0, 0.5, 0)); ik.adoptAssemblyGoal(mk);
+        ik.initialize(s); mk->moveOneObservation(Markers::ObservationIx(0), Vec3(0.5, 0, 0)); mk->moveOneObservation(Markers::ObservationIx(1), Vec3(0, 0.5, 0));
+        ik.assemble(); ik.updateFromInternalState(s);
+        const double want = 0.3 * std::sin(0.5);
+        ctx.desc << "prescribed pin (0.3 sin(t+0.5)) starting at 0, goal and constraints already satisfied: assemble() returned q2=" << p2.getQ(s) << " (prescribed value " << want << ")\n";
+        ctx.check(std::fabs(p2.getQ(s) - want) <= 1e-14, "assemble() returned normally but the prescribed coordinate is " + S(p2.getQ(s)) + " instead of its prescribed value " + S(want) + " (initial error/goal were evaluated, and found good enough, before prescribeQ)");
+    }});
+    c.directed.push_back({"euler-conversion-resets-lock-position", "euler-conversion-resets-lock-position", [](pbt::Ctx& ctx) {
+        MultibodySystem sys; SimbodyMatterSubsystem matter(sys); Body::Rigid body(MassProperties(1, Vec3(0), Inertia(1)));
+        MobilizedBody::Pin p1(matter.Ground(), Transform(), body, Transform()); MobilizedBody::Pin p2(p1, Transform(), body, Transform());
+        Constraint::Rod rod(p1, Vec3(-0.3, 0.25, 0.4), p2, Vec3(0.75, 0.7, -0.1), 1.2469963913339925);
+        State s = sys.realizeTopology(); sys.realizeModel(s);      // default modelling option: quaternions
+        p1.setQ(s, -0.02); p2.setQ(s, 0.01); p1.lock(s); sys.realizeModel(s);
+        Assembler ik(sys); ik.initialize(s); ik.assemble(); ik.updateFromInternalState(s);
+        ctx.desc << "pin 1 locked with MobilizedBody::lock() at q=-0.02, rod to pin 2 needs assembling: after assemble() q1=" << p1.getQ(s) << "\n";
+        ctx.check(p1.getQ(s) == -0.02, "mobilizer locked with MobilizedBody::lock() at q=-0.02 was moved to " + S(p1.getQ(s)) + " by Assembler::assemble() (convertToEulerAngles reset the recorded lock position to the default q)");
+    }});
+    c.directed.push_back({"euler-conversion-resets-u", "euler-conversion-resets-u", [](pbt::Ctx& ctx) {
+        MultibodySystem sys; SimbodyMatterSubsystem matter(sys); GeneralForceSubsystem forces(sys); Force::UniformGravity(forces, matter, Vec3(0, -9.8, 0));
+        Body::Rigid body(MassProperties(1, Vec3(0), Inertia(1))); MobilizedBody::Pin p1(matter.Ground(), Transform(), body, Transform(Vec3(0, 1, 0)));
+        State s = sys.realizeTopology(); sys.realizeModel(s); p1.setQ(s, 0.4); p1.setU(s, 1.5);
+        LocalEnergyMinimizer::minimizeEnergy(sys, s, 1e-6);
+        ctx.desc << "pendulum, quaternion mode (default), u=1.5 before minimizeEnergy: u=" << p1.getU(s) << " after\n";
+        ctx.check(p1.getU(s) == 1.5, "minimizeEnergy changed u from 1.5 to " + S(p1.getU(s)) + " (documented: only q changes; convertToEulerAngles/convertToQuaternions reset u)");
+    }});
+    c.directed.push_back({"lem-euler-mode-discards-start", "lem-euler-mode-discards-start", [](pbt::Ctx& ctx) {
+        MultibodySystem sys; SimbodyMatterSubsystem matter(sys); GeneralForceSubsystem forces(sys); Force::UniformGravity(forces, matter, Vec3(0, -9.8, 0));
+        Body::Rigid body(MassProperties(1, Vec3(0), Inertia(1))); MobilizedBody::Pin p1(matter.Ground(), Transform(), body, Transform(Vec3(0, 1, 0)));
+        State s = sys.realizeTopology(); matter.setUseEulerAngles(s, true); sys.realizeModel(s); p1.setQ(s, 2 * Pi_ + 0.4);
+        LocalEnergyMinimizer::minimizeEnergy(sys, s, 1e-6);
+        ctx.desc << "pendulum (minima at q = 2 pi k), Euler-angle mode, start q = 2 pi + 0.4: minimizeEnergy returned q=" << p1.getQ(s) << "\n";
+        ctx.check(std::fabs(p1.getQ(s) - 2 * Pi_) < 0.1, "minimizeEnergy started from the default configuration instead of the caller's: start q=2pi+0.4, nearest minimum 2pi, returned q=" + S(p1.getQ(s)));
+    }});
+    c.directed.push_back({"lem-mobility-force-gradient-sign", "lem-mobility-force-gradient-sign", [](pbt::Ctx& ctx) {
+        MultibodySystem sys; SimbodyMatterSubsystem matter(sys); GeneralForceSubsystem forces(sys);
+        Body::Rigid body(MassProperties(1, Vec3(0), Inertia(1))); MobilizedBody::Pin p1(matter.Ground(), Transform(), body, Transform(Vec3(0, 1, 0)));
+        Force::MobilityLinearSpring(forces, p1, MobilizerQIndex(0), 2.0, 0.5);
+        State s = sys.realizeTopology(); sys.realizeModel(s); p1.setQ(s, 0.1);
+        try { LocalEnergyMinimizer::minimizeEnergy(sys, s, 1e-6); } catch (const std::exception& e) { ctx.desc << "exception: " << e.what() << "\n"; ctx.fail("minimizeEnergy cannot minimise 1/2 k (q-0.5)^2 of a single MobilityLinearSpring (gradient has the wrong sign for mobility forces): " + std::string(e.what()).substr(0, 200)); return; }
+        ctx.desc << "pin with one MobilityLinearSpring (k=2, q0=0.5), start q=0.1: minimizeEnergy returned q=" << p1.getQ(s) << "\n";
+        ctx.check(std::fabs(p1.getQ(s) - 0.5) < 1e-3, "minimizeEnergy returned q=" + S(p1.getQ(s)) + " for a single MobilityLinearSpring with minimum at q=0.5");
+    }});
+    for (const char* id : {"lem-constrained-energy-increase", "opf-fit-worse-than-start"}) {
+        std::string sid = id;
+        c.directed.push_back({sid, sid, [sid](pbt::Ctx& ctx) {
+            pbt::Tape t; std::string path = pbt::verifDir() + "/replays/C43/known-" + sid + ".tape";
+            if (!pbt::readTape(path, t)) { ctx.desc << "tape " << path << " not found\n"; return; }
+            for (auto& sgm : t) sgm.resize(KK, 0u);
+            ignoredKnown() = sid; try { property(t, ctx); } catch (...) { ignoredKnown().clear(); throw; } ignoredKnown().clear();
+        }});
+    }
     return c;
 }
 } // namespace
